@@ -11,7 +11,8 @@ package main
 //
 // Native nesting (Model 4c): the declared types of the VM's arrays (`frames`, `stack`) and,
 // for every function of vm/ that calls `….eval(` the
-// activate… call that precedes it (which frame it claims).
+// activate… call that precedes it (which frame it claims); the uses of callFunction's nesting
+// counter `vm.callDepth` in source order relative to the Go defers, activateFunction and eval.
 // Mutexes (Model 4d): for every function of importer/, vm/, compiler/ and the root package
 // the calls of Lock / Unlock / RLock / RUnlock / TryLock it contains, in source order, with
 // `defer` marked.
@@ -274,6 +275,117 @@ func c03_genC03(repo string) string {
 			}
 		}
 	}
+	// ---- native nesting: the nesting counter of callFunction (vm.callDepth).  For callFunction
+	// and for every other function of vm/ that mentions a selector `.callDepth` (or sets it in a
+	// struct literal): the events that matter for the bound, in source order — the test, the
+	// increment / decrement, the Go defer statements (as brackets), the loop over the frame's
+	// deferred calls, activateFunction and eval.
+	var callDepthUses []string
+	for _, cf := range c03Parse(fset, repo, "vm", "vm") {
+		for _, d := range cf.file.Decls {
+			fd, ok := d.(*ast.FuncDecl)
+			if !ok || fd.Body == nil {
+				continue
+			}
+			type ev struct {
+				pos  token.Pos
+				text string
+			}
+			var evs []ev
+			covered := map[token.Pos]bool{}
+			var mentions []token.Pos
+			isDepth := func(e ast.Expr) bool {
+				sel, ok := e.(*ast.SelectorExpr)
+				return ok && sel.Sel.Name == "callDepth"
+			}
+			cover := func(n ast.Node) {
+				ast.Inspect(n, func(m ast.Node) bool {
+					if e, ok := m.(ast.Expr); ok && isDepth(e) {
+						covered[m.Pos()] = true
+					}
+					return true
+				})
+			}
+			ast.Inspect(fd.Body, func(n ast.Node) bool {
+				switch x := n.(type) {
+				case *ast.SelectorExpr:
+					if x.Sel.Name == "callDepth" {
+						mentions = append(mentions, x.Pos())
+					}
+				case *ast.IfStmt:
+					has := false
+					ast.Inspect(x.Cond, func(m ast.Node) bool {
+						if e, ok := m.(ast.Expr); ok && isDepth(e) {
+							has = true
+						}
+						return true
+					})
+					if has {
+						cover(x.Cond)
+						body := "…"
+						if k := len(x.Body.List); k > 0 {
+							if _, ok := x.Body.List[k-1].(*ast.ReturnStmt); ok {
+								body = "return"
+							}
+						}
+						evs = append(evs, ev{x.Pos(), "if " + c03Src(fset, x.Cond) + " { " + body + " }"})
+					}
+				case *ast.IncDecStmt:
+					if isDepth(x.X) {
+						covered[x.X.Pos()] = true
+						evs = append(evs, ev{x.Pos(), "callDepth" + x.Tok.String()})
+					}
+				case *ast.AssignStmt:
+					for _, l := range x.Lhs {
+						if isDepth(l) {
+							covered[l.Pos()] = true
+							evs = append(evs, ev{x.Pos(), c03Src(fset, x)})
+						}
+					}
+				case *ast.KeyValueExpr:
+					if id, ok := x.Key.(*ast.Ident); ok && id.Name == "callDepth" {
+						evs = append(evs, ev{x.Pos(), "callDepth: " + c03Src(fset, x.Value)})
+					}
+				case *ast.DeferStmt:
+					evs = append(evs, ev{x.Pos(), "defer{"}, ev{x.End(), "}"})
+				case *ast.RangeStmt:
+					if sel, ok := x.X.(*ast.SelectorExpr); ok && sel.Sel.Name == "defers" {
+						evs = append(evs, ev{x.Pos(), "range defers"})
+					}
+				case *ast.CallExpr:
+					if sel, ok := x.Fun.(*ast.SelectorExpr); ok {
+						switch sel.Sel.Name {
+						case "activateFunction", "eval":
+							evs = append(evs, ev{x.Pos(), sel.Sel.Name})
+						}
+					}
+				}
+				return true
+			})
+			relevant := fd.Name.Name == "callFunction" && fd.Recv != nil
+			for _, e := range evs {
+				if strings.Contains(e.text, "callDepth") {
+					relevant = true
+				}
+			}
+			for _, mp := range mentions {
+				relevant = true
+				if !covered[mp] {
+					evs = append(evs, ev{mp, "other use of callDepth"})
+				}
+			}
+			if !relevant {
+				continue
+			}
+			sort.SliceStable(evs, func(i, j int) bool { return evs[i].pos < evs[j].pos })
+			var ts []string
+			for _, e := range evs {
+				ts = append(ts, e.text)
+			}
+			callDepthUses = append(callDepthUses, c03_funcKey(cf.pkg, fd)+": "+strings.Join(ts, "; "))
+		}
+	}
+	sort.Strings(callDepthUses)
 	sort.Strings(vmArrays)
 	sort.Strings(evalReentries)
 	if len(vmArrays) != 2 {
@@ -489,6 +601,7 @@ func c03_genC03(repo string) string {
 	sb.WriteString(c03_leanStrList("vmRecovers", "functions of vm/ and object/thread.go that call recover()", vmRecovers))
 	sb.WriteString(c03_leanStrList("parserAdvanceLoops", "for-loops of parser/ (function#ordinal of the loop in the function, condition) whose body calls `p.nextToken()` as a statement, its result dropped, with the number of such calls directly in the loop (not in nested loops)", advLoops))
 	sb.WriteString(c03_leanStrList("vmArrays", "declared types of the fields `frames` and `stack` of vm.VirtualMachine", vmArrays))
+	sb.WriteString(c03_leanStrList("callDepthUses", "callFunction, and every other function of vm/ that mentions `.callDepth` (the nesting counter of callFunction) or sets it in a struct literal: in source order the test of the counter, its increments / decrements / assignments, the Go defer statements as brackets, the loop over the frame's deferred calls, activateFunction and eval", callDepthUses))
 	sb.WriteString(c03_leanStrList("evalReentries", "every call of `….eval(` in vm/ with the activateCode / activateFunction call (first argument = the frame index it claims) that precedes it in its function", evalReentries))
 	sb.WriteString("/-- functions of importer/, vm/, compiler/ and the root package that call Lock / Unlock / RLock / RUnlock / TryLock on anything, with those calls in source order: (receiver expression, method, is it the call of a `defer` statement) -/\ndef mutexOps : List (String × List (String × String × Bool)) := [\n")
 	for i, m := range mutexOps {
